@@ -18,8 +18,9 @@ pub static LOG_CLOCK: AtomicBool = AtomicBool::new(false);
 
 /// Per-program behaviour of the thread-local destructors: for key k, `touch[k]` is the key its
 /// destructor reads (-1: none) and `yields[k]` whether it yields while being dropped.
-pub static TLS_TOUCH: [std::sync::atomic::AtomicI64; 2] = [std::sync::atomic::AtomicI64::new(-1), std::sync::atomic::AtomicI64::new(-1)];
-pub static TLS_YIELD: [AtomicBool; 2] = [AtomicBool::new(false), AtomicBool::new(false)];
+pub static TLS_TOUCH: [std::sync::atomic::AtomicI64; 3] =
+    [std::sync::atomic::AtomicI64::new(-1), std::sync::atomic::AtomicI64::new(-1), std::sync::atomic::AtomicI64::new(-1)];
+pub static TLS_YIELD: [AtomicBool; 3] = [AtomicBool::new(false), AtomicBool::new(false), AtomicBool::new(false)];
 
 pub struct TlsVal {
     key: usize,
@@ -29,7 +30,8 @@ pub struct TlsVal {
 fn tls_read(k: usize) -> i64 {
     let r = match k {
         0 => TL0.try_with(|c| c.val.get()),
-        _ => TL1.try_with(|c| c.val.get()),
+        1 => TL1.try_with(|c| c.val.get()),
+        _ => TL2.try_with(|c| c.val.get()),
     };
     r.unwrap_or(-7)
 }
@@ -65,6 +67,7 @@ impl Drop for TlsVal {
 shuttle::thread_local! {
     static TL0: TlsVal = TlsVal::new(0);
     static TL1: TlsVal = TlsVal::new(1);
+    static TL2: TlsVal = TlsVal::new(2);
 }
 
 pub struct LzVal {
@@ -242,7 +245,7 @@ impl Drop for Token {
 
 pub fn run_main(prog: Arc<Prog>) {
     let _tk = Token::new();
-    for k in 0..2 {
+    for k in 0..3 {
         TLS_TOUCH[k].store(prog.tls_touch.get(k).copied().unwrap_or(-1), StdOrdering::Relaxed);
         TLS_YIELD[k].store(prog.tls_yield.get(k).copied().unwrap_or(0) != 0, StdOrdering::Relaxed);
     }
@@ -372,7 +375,11 @@ fn exec_op<'a>(warc: &Arc<World>, w: &'a World, _ix: usize, op: &Op, guards: &mu
                 c.val.set(op.v);
                 old
             };
-            let r = if o == 0 { TL0.try_with(f) } else { TL1.try_with(f) };
+            let r = match o {
+                0 => TL0.try_with(f),
+                1 => TL1.try_with(f),
+                _ => TL2.try_with(f),
+            };
             r.unwrap_or(-7)
         }
         // ---- lazy statics: first access initialises (per execution)
